@@ -434,8 +434,8 @@ int main(int argc, char **argv)
     docs = &d;
     bool thorough = a.tier == "thorough";
 
-    // corpus first: the witness of the recorded finding and a few hand-picked histories
-    runSeq({ "E", "N", "m", "R=" }, true);                // h of <resume/> counts a stanza received on a session without SM
+    // corpus first: the witness of the (fixed) finding C09:h:counts-stanzas-received-without-sm and a few hand-picked histories
+    runSeq({ "E", "N", "m", "R=" }, true);                // witness of the defect fixed by repo commit 6d4ec74: <resume h/> counted a stanza received on a session without SM
     runSeq({ "E", "F", "p", "i", "q", "R-", "q" });
     runSeq({ "E", "s", "s", "s", "a-", "L", "s", "R-", "a=" }, true);
     runSeq({ "E", "s", "d", "s", "L", "E", "a-", "a=" });
